@@ -1,6 +1,9 @@
 """Exact rationals with +-infinity for bounds.  Finite values are fractions.Fraction; infinite bounds are
 the floats math.inf / -math.inf (comparison Fraction<->float inf is exact in Python)."""
 from fractions import Fraction
+import sys
+if hasattr(sys, "set_int_max_str_digits"):
+    sys.set_int_max_str_digits(0)      # literals of tens of thousands of digits are part of the workloads
 import math
 
 INF = math.inf
